@@ -93,11 +93,14 @@ PROPS["C05"] = dict(
 )
 PROPS["C06"] = dict(
     title="Power-of-two radix float output is exact and round-trips",
-    level_text="Kani harnesses on the real writers: for EVERY finite f32 (full 2^32 domain, per radix / exponent-base "
-               "instantiation) the written bytes are evaluated exactly (digits in the mantissa radix, exponent digits in the "
-               "exponent radix, exponent base) and equal mantissa * 2^exponent taken from the float's bits; the hex-float "
-               "round trip (write, then the real complete parser in the same format) returns the identical bits. f64 and the "
-               "remaining radix/base instantiations are in the thorough tier.",
+    level_text="Verus: every entry of the digit-pair tables the writers emit through (radix 2..36, row obligations), the "
+               "radix-generic integer writer the shifted mantissa goes through (wi_radix u64). Kani harnesses on the real "
+               "float writers: the written bytes are evaluated exactly (digits in the mantissa radix, exponent digits in the "
+               "exponent radix, exponent base) and equal mantissa * 2^exponent taken from the float's bits - quick: every f32 "
+               "of one binade per instantiation (incl. all subnormals for 16/2); thorough: EVERY finite f32 per radix / "
+               "exponent-base instantiation and the hex-float write -> parse round trip.",
+    rows_quick=["wi-digit-tables"],
+    verus_quick=[WI_RADIX[0]],
     assumptions=["instantiated formats only (FORMAT is a const generic): radix 2/4/8/16/32 same-base, 16/2, 16/4, 8/2; "
                  "max/min_significant_digits unset (the property is about default output)"],
 )
